@@ -27,6 +27,7 @@ def _dtypes_for(b):
 
 def shards(tier):
     out = [{"b": b, "dt": dt} for b in STRIDES for dt in _dtypes_for(b)]
+    out += [{"huge": b} for b in (64, 32, 16)]          # > 4096 registers: block / chunk thresholds
     alls = [[1, 10 if tier == "quick" else 12], [2, 5 if tier == "quick" else 6]] + ([[4, 3]] if tier != "quick" else [])
     for b, L in alls:
         for n in range(L + 1):
@@ -46,6 +47,10 @@ def _lengths(b, tier):
 
 
 def cases(shard, tier):
+    if "huge" in shard:
+        b = shard["huge"]
+        yield [b, 4100 * (64 // b) + 1, _dtypes_for(b)[0], "prog"]
+        return
     if "all" in shard:
         b, n = shard["all"]
         for t in itertools.product(range(2 ** b), repeat=n):
@@ -120,7 +125,7 @@ def check(case, acc):
         return
     if attempt(lambda: arr.tolist()) != vals:
         acc.fail("input-modified", vals, arr.tolist())
-    for i in range(n):
+    for i in (range(n) if n <= 400 else list(range(60)) + list(range(n - 60, n))):
         o = attempt(lambda: int(pk()[i]))
         acc.trans()
         if o != vals[i]:
@@ -128,7 +133,8 @@ def check(case, acc):
             break
     fams = []
     if n:
-        fams = [[0], [n - 1], list(range(n))[::-1], [0, 0, n - 1, 0], list(range(0, n, 3)), [i for i in (p - 1, p, p + 1, 2 * p) if i < n]]
+        fams = [[0], [n - 1], list(range(n))[::-1], [0, 0, n - 1, 0], list(range(0, n, 3)), [i for i in (p - 1, p, p + 1, 2 * p) if i < n],
+                list(range(1, n)), list(range(p // 2 + 1, n)), list(range(max(0, p - 1), n)), list(range(1, min(n, p + 1)))]
     for lst in fams:
         if not lst:
             continue
@@ -159,7 +165,7 @@ def check(case, acc):
             if o != e:
                 acc.fail(f"same-object:{name}", (w, e), o)
                 break
-    for w in range(1, p + 1):
+    for w in (range(1, p + 1) if n <= 400 else sorted({1, 2, p} & set(range(1, p + 1)))):
         if w > n:
             break
         exp = [sum(vals[i + j] << (b * j) for j in range(w)) for i in range(n - w + 1)]
